@@ -16,4 +16,5 @@ func init() {
 	mut("C10", "readerdone-not-deferred", "h2/relay.go", "\tdefer func() { readerDone <- struct{}{} }()\n", "\tsignal := func() { readerDone <- struct{}{} }\n\t_ = signal\n", "C10.R4", "readerDone is signalled")
 	mut("C10", "wake-only-on-error", "h2/h2.go", "\t\tdefer finish()\n\t\tif err := sToC.relayFrames(stop); err != nil {\n\t\t\tlog.Errorf(\"relaying frame from %v to client: %v\", url, err)\n\t\t}\n", "\t\tif err := sToC.relayFrames(stop); err != nil {\n\t\t\tlog.Errorf(\"relaying frame from %v to client: %v\", url, err)\n\t\t\tfinish()\n\t\t}\n", "C10.R2", "")
 	twin("C10", "wake-inline-all-paths", "h2/h2.go", "\t\tdefer finish()\n\t\tif err := sToC.relayFrames(stop); err != nil {\n\t\t\tlog.Errorf(\"relaying frame from %v to client: %v\", url, err)\n\t\t}\n", "\t\tif err := sToC.relayFrames(stop); err != nil {\n\t\t\tlog.Errorf(\"relaying frame from %v to client: %v\", url, err)\n\t\t}\n\t\tfinish()\n")
+	mut("C10", "escape-arm-breaks-select-only", "h2/relay.go", "\t\t\t// forever with flowMu held.\n\t\t\treturn\n", "\t\t\t// forever with flowMu held.\n\t\t\tbreak\n", "C10.R3", "leaves the emission loop")
 }
